@@ -76,7 +76,7 @@ TBegin ==
   /\ returned' = FALSE
   /\ l' = l + 2
   /\ ok' = (Trace[l+1].ev = "scan" /\ Trace[l+1].i = 1 /\
-            Trace[l+1].t = (IF Len(Ev.input) = 0 THEN 1
+            Trace[l+1].t = (IF Len(Ev.input) = 0 THEN Col(g, EOFSym)
                             ELSE IF Ev.input[1] = 0 THEN 0 ELSE Col(g, Ev.input[1])))
   /\ UNCHANGED <<dbg, id>>
 
@@ -130,17 +130,21 @@ TSkip ==
   /\ l' = l + 1 /\ ok' = ScanMatches(Ev, nxt')
   /\ UNCHANGED <<dbg, id, returned>>
 
+ErrMatches(e) ==
+  /\ e.k = "e"
+  /\ e.i = out.tok
+  /\ e.injected = out.injected
+  /\ {e.exp[j] : j \in 1..Len(e.exp)} = out.exp
+  /\ e.toktype = (IF P!TokType(out.tok) = 0 THEN 0 ELSE Col(g, P!TokType(out.tok)))
+  /\ Len(e.syms) = 0
+
 TRet ==
   /\ More /\ Ev.ev = "ret" /\ pc = "done" /\ ~returned
   /\ returned' = TRUE /\ l' = l + 1
   /\ ok' = /\ Ev.ok = out.ok
            /\ out.ok => (Ev.res.k = out.res.k /\ Ev.res.i = out.res.i)
-           /\ ~out.ok => /\ Ev.err.k = "e"
-                         /\ Ev.err.i = out.tok
-                         /\ Ev.err.injected = out.injected
-                         /\ {Ev.err.exp[j] : j \in 1..Len(Ev.err.exp)} = out.exp
-                         /\ Ev.err.toktype = (IF P!TokType(out.tok) = 0 THEN 0 ELSE Col(g, P!TokType(out.tok)))
-                         /\ Len(Ev.err.syms) = 0
+           /\ ~out.ok => (Ev.err.k = "plain"      \* an unstructured error value (front end)
+                          \/ ErrMatches(Ev.err))
   /\ UNCHANGED <<g, input, failAt, pc, stack, nxt, ncall, etok, out, dbg, id>>
 
 TDone == ~More /\ returned /\ UNCHANGED vars
